@@ -30,9 +30,17 @@ OUTSIDE = ["payloads longer than the bound", "boundaries other than those listed
 NL = {"CRLF": b"\r\n", "LF": b"\n", "CR": b"\r"}
 
 
-def build_body(K, boundary, payload, parts_after, bodyless):
-    """a multipart body with one part whose payload is `payload` (may be symbolic)"""
-    head = b"--" + boundary + K + b'Content-Disposition: form-data; name="a"' + K
+LONG_PART_HEADERS = (b'Content-Disposition: form-data; name="upload"; filename="a-rather-long-file-name.bin"',
+                     b"Content-Type: application/octet-stream", b"X-Extra: 0123456789")
+
+
+def build_body(K, boundary, payload, parts_after, bodyless, long_first=False):
+    """a multipart body with one part whose payload is `payload` (may be symbolic);
+    long_first puts a part with a long header block in front of it"""
+    head = b""
+    if long_first:
+        head = b"--" + boundary + K + K.join(LONG_PART_HEADERS) + K + K + b"first" + K
+    head += b"--" + boundary + K + b'Content-Disposition: form-data; name="a"' + K
     if bodyless:
         # a part without a body: the header block is directly followed by the delimiter
         first = head + K + b"--" + boundary
@@ -108,7 +116,7 @@ def split_at(body, offsets):
     return out
 
 
-def body_decoder(I, X, framing="CRLF", boundary=b"b", n=3, bodyless=False, parts_after=False, cuts=(0,)):
+def body_decoder(I, X, framing="CRLF", boundary=b"b", n=3, bodyless=False, parts_after=False, cuts=(0,), long_first=False):
     """`cuts` are split offsets counted back from the end of the payload region"""
     if isinstance(boundary, str):
         boundary = boundary.encode("latin-1")
@@ -121,7 +129,7 @@ def body_decoder(I, X, framing="CRLF", boundary=b"b", n=3, bodyless=False, parts
             X.assume(pnone_in(payload, [13]))
         elif framing == "CR":
             X.assume(pnone_in(payload, [10]))
-    body = build_body(K, boundary, payload, parts_after, bodyless)
+    body = build_body(K, boundary, payload, parts_after, bodyless, long_first)
     total = plen(body)
     offsets = sorted(total - c for c in cuts)
     if offsets[0] < 0 or offsets[-1] > total:
@@ -132,11 +140,13 @@ def body_decoder(I, X, framing="CRLF", boundary=b"b", n=3, bodyless=False, parts
     # absolute oracle: a payload without a delimiter look-alike comes back byte-exact
     if not bodyless:
         clean = pnot(pcontains(pconcat(payload, K), b"--" + boundary))
-        got = whole[0][0][4] if whole[0] else None
+        idx = 1 if long_first else 0
+        got = whole[0][idx][4] if len(whole[0]) > idx else None
         good = (got is not None) and peq(got, payload) if got is not None else False
         ok = pand(ok, pimplies(clean, pand(whole[2] is None, good)))
     else:
-        ok = pand(ok, whole[2] is None, len(whole[0]) >= 1 and peq(whole[0][0][4], b""))
+        idx = 1 if long_first else 0
+        ok = pand(ok, whole[2] is None, len(whole[0]) > idx and peq(whole[0][idx][4], b""))
     obs = {"whole": whole, "chunked": chunked}
     return ok, obs
 
@@ -237,7 +247,7 @@ def body_parser(I, X, framing="CRLF", boundary="b", n=2, kind="field", buffer_si
 
 
 def obligations(tier, seed):
-    out = _decoder_obligations(tier, seed)
+    out = _decoder_obligations(tier, seed) + _long_first_obligations(tier, seed)
     for framing, K in NL.items():
         for kind in ("field", "file"):
             if kind == "file":
@@ -265,6 +275,27 @@ def obligations(tier, seed):
                             "params": {"framing": framing, "kind": kind, "n": n, "buffer_size": bs, "short": True},
                             "opts": {"budget_s": 900, "ctx": {"loop_bound": 1000}},
                         })
+    return out
+
+
+def _long_first_obligations(tier, seed):
+    """a part with a long header block first, then the symbolic part, then another part:
+    state carried from one part's header search into the next is exercised by every
+    2-way split"""
+    out = []
+    framings = ["CRLF"] if tier == "quick" else ["CRLF", "LF", "CR"]
+    for framing in framings:
+        K = NL[framing]
+        for bodyless, n in ([(False, 0), (False, 2)] if tier == "quick" else [(False, 0), (False, 1), (False, 3), (True, 0)]):
+            total = len(build_body(K, b"b", b"x" * n, True, bodyless, True))
+            for c in range(0, total + 1):
+                out.append({
+                    "name": f"decoder-long-first[{framing},n={n},bodyless={bodyless},cuts=({c},)]",
+                    "body": "body_decoder",
+                    "params": {"framing": framing, "boundary": "b", "n": n, "bodyless": bodyless, "parts_after": True,
+                               "cuts": [c], "long_first": True},
+                    "opts": {"budget_s": 600},
+                })
     return out
 
 
